@@ -54,6 +54,7 @@ theorem mem_collect_none (T : Tuning S) (db : Db) (o : Opts S) (m : List (Nat ×
     obtain ⟨rfl, rfl⟩ := hx
     exact ⟨c, s0, hc, hm, rfl⟩
 
+omit [ScoreOps S] in
 theorem lookup_of_mem {m : List (Nat × S)} (hs : KeysSorted m) {d : Nat} {s : S} (h : (d, s) ∈ m) :
     List.lookup d m = some s := by
   induction m with
